@@ -3,6 +3,7 @@ package scen
 import (
 	"encoding/json"
 	"fmt"
+	"strconv"
 	"strings"
 
 	"github.com/crillab/gophersat/explain"
@@ -22,7 +23,26 @@ type FmtCase struct {
 	N      int      `json:"n"`
 	P      *Prob    `json:"p,omitempty"` // opb reference
 	M      *MaxCase `json:"m,omitempty"` // wcnf reference
+	// Long lines are kept out of the case (and of the replay file): Text holds the marker longMark where a filler of
+	// Long bytes built from the unit Fill is inserted before the text is handed to the reader.
+	Long int    `json:"long,omitempty"`
+	Fill string `json:"fill,omitempty"`
 }
+
+const longMark = "\x00LONG\x00"
+
+// expand replaces the marker by the filler: Fill repeated up to at least Long bytes (whole units only).
+func (c FmtCase) expand() string {
+	if c.Long == 0 {
+		return c.Text
+	}
+	n := c.Long/len(c.Fill) + 1
+	return strings.Replace(c.Text, longMark, strings.Repeat(c.Fill, n), 1)
+}
+
+// Line lengths around the two buffer sizes of the I/O layer the readers sit on (bufio.Reader: 4096 bytes,
+// bufio.Scanner: 64 KiB maximal token by default).
+var longSizes = []int{4100, 70000}
 
 type c13 struct{}
 
@@ -111,6 +131,65 @@ func dimacsLayouts(f [][]int, n int, yield func(layout, text string) bool) bool 
 	return true
 }
 
+// dimacsLong renders f with one line longer than a buffer of the I/O layer: a comment line (before the header or
+// between clauses) whose tail is prose or integers that would be clauses if they leaked into the clause stream, and a
+// clause line made long by repeating its first literal (repeated literals are legal). long is one of longSizes.
+func dimacsLong(f [][]int, n int, long int, weights []string, header string, yield func(layout, text, fill string) bool) bool {
+	cl := func(i int, c []int) string {
+		var parts []string
+		if weights != nil {
+			parts = append(parts, weights[i])
+		}
+		for _, l := range c {
+			parts = append(parts, fmt.Sprint(l))
+		}
+		return strings.Join(append(parts, "0"), " ")
+	}
+	var body []string
+	for i, c := range f {
+		body = append(body, cl(i, c))
+	}
+	tag := fmt.Sprintf("-%d", long)
+	for _, fill := range []string{"lorem ipsum ", "1 0 -1 0 "} {
+		kind := "prose"
+		if fill[0] == '1' {
+			kind = "ints"
+		}
+		first := append([]string{"c " + longMark, header}, body...)
+		if !yield("long-comment-first-"+kind+tag, strings.Join(first, "\n")+"\n", fill) {
+			return false
+		}
+		if len(body) >= 1 {
+			mid := append([]string{header, body[0], "c " + longMark}, body[1:]...)
+			if !yield("long-comment-between-"+kind+tag, strings.Join(mid, "\n")+"\n", fill) {
+				return false
+			}
+		}
+	}
+	for i, c := range f {
+		if len(c) == 0 {
+			continue
+		}
+		var parts []string
+		if weights != nil {
+			parts = append(parts, weights[i])
+		}
+		parts = append(parts, fmt.Sprint(c[0]), longMark)
+		for _, l := range c[1:] {
+			parts = append(parts, fmt.Sprint(l))
+		}
+		ls := append([]string{header}, body[:i]...)
+		ls = append(ls, strings.Join(append(parts, "0"), " "))
+		ls = append(ls, body[i+1:]...)
+		// the filler has no trailing blank: the marker is followed by " <next token>"
+		if !yield("long-clause-line"+tag, strings.Join(ls, "\n")+"\n", fmt.Sprint(c[0])+" ") {
+			return false
+		}
+		break // the first non-empty clause only
+	}
+	return true
+}
+
 // opbLayouts renders p (constraints of kind ge/eq, optional cost) under every layout.
 func opbLayouts(p Prob, yield func(layout, text string) bool) bool {
 	type style struct {
@@ -190,9 +269,57 @@ func opbLayouts(p Prob, yield func(layout, text string) bool) bool {
 	return true
 }
 
+// opbLong renders p canonically with one line longer than a buffer of the I/O layer: a comment line (first, between,
+// last) or a constraint line padded with blanks in front of its degree.
+func opbLong(p Prob, long int, yield func(layout, text, fill string) bool) bool {
+	var canon string
+	opbLayouts(p, func(layout, text string) bool { canon = text; return false }) // the first layout is the canonical one
+	ls := strings.Split(strings.TrimSuffix(canon, "\n"), "\n")
+	tag := fmt.Sprintf("-%d", long)
+	join := func(x []string) string { return strings.Join(x, "\n") + "\n" }
+	for _, fill := range []string{"lorem ipsum ", "+1 x1 >= 1 ; -1 x1 >= 0 ; "} {
+		kind := "prose"
+		if fill[0] == '+' {
+			kind = "statements"
+		}
+		com := "* " + longMark
+		if !yield("long-comment-first-"+kind+tag, join(append([]string{com}, ls...)), fill) {
+			return false
+		}
+		if !yield("long-comment-last-"+kind+tag, join(append(append([]string{}, ls...), com)), fill) {
+			return false
+		}
+		if len(ls) >= 2 {
+			mid := append([]string{ls[0], com}, ls[1:]...)
+			if !yield("long-comment-between-"+kind+tag, join(mid), fill) {
+				return false
+			}
+		}
+	}
+	for i, l := range ls { // every statement in turn padded in front of its last-but-one token (the degree, or the last variable of min:)
+		toks := strings.Split(l, " ")
+		if len(toks) < 3 {
+			continue
+		}
+		k := len(toks) - 2
+		padded := strings.Join(toks[:k], " ") + " " + longMark + strings.Join(toks[k:], " ")
+		x := append(append(append([]string{}, ls[:i]...), padded), ls[i+1:]...)
+		if !yield("long-statement-line"+tag, join(x), " ") {
+			return false
+		}
+	}
+	return true
+}
+
 func (c13) Enumerate(tier string, seed int64, yield func(string, core.Case) bool) {
 	thorough := tier == "thorough"
 	// DIMACS
+	// long-line layouts: 4100-byte lines on every longEvery[0]-th object of a format, 70000-byte lines on every longEvery[1]-th
+	longEvery := []int{5, 50}
+	if thorough {
+		longEvery = []int{2, 10}
+	}
+	nCnf := 0
 	cnf := func(f [][]int, n int) bool {
 		for _, decl := range []int{n, n + 1} {
 			ok := dimacsLayouts(f, decl, func(layout, text string) bool {
@@ -201,6 +328,19 @@ func (c13) Enumerate(tier string, seed int64, yield func(string, core.Case) bool
 			})
 			if !ok {
 				return false
+			}
+			nCnf++
+			for k, long := range longSizes {
+				if nCnf%longEvery[k] != 0 {
+					continue
+				}
+				ok := dimacsLong(f, decl, long, nil, fmt.Sprintf("p cnf %d %d", decl, len(f)), func(layout, text, fill string) bool {
+					return yield("dimacs/long", FmtCase{Kind: "cnf", Layout: layout, Text: text, F: f, N: decl, Long: long, Fill: fill}) &&
+						yield("dimacs-explain/long", FmtCase{Kind: "cnf-explain", Layout: layout, Text: text, F: f, N: decl, Long: long, Fill: fill})
+				})
+				if !ok {
+					return false
+				}
 			}
 		}
 		return true
@@ -234,15 +374,31 @@ func (c13) Enumerate(tier string, seed int64, yield func(string, core.Case) bool
 	for _, cf := range costFunctions(3, 2, -2, 2, false) {
 		costs = append(costs, cf)
 	}
+	nOpb := 0
 	opb := func(cs []Con, cf [2][]int) bool {
 		p := Prob{Front: "opb", N: 3, Cs: cpCons(cs...)}
 		if cf[0] != nil {
 			p.CostL, p.CostW = cf[0], cf[1]
 		}
-		return opbLayouts(p, func(layout, text string) bool {
+		if !opbLayouts(p, func(layout, text string) bool {
 			q := p
 			return yield("opb/"+layout, FmtCase{Kind: "opb", Layout: layout, Text: text, P: &q, N: 3})
-		})
+		}) {
+			return false
+		}
+		nOpb++
+		for k, long := range longSizes {
+			if nOpb%longEvery[k] != 0 {
+				continue
+			}
+			if !opbLong(p, long, func(layout, text, fill string) bool {
+				q := p
+				return yield("opb/long", FmtCase{Kind: "opb", Layout: layout, Text: text, P: &q, N: 3, Long: long, Fill: fill})
+			}) {
+				return false
+			}
+		}
+		return true
 	}
 	for _, a := range al {
 		for ci, cf := range costs {
@@ -269,6 +425,7 @@ func (c13) Enumerate(tier string, seed int64, yield func(string, core.Case) bool
 		}
 	}
 	// WCNF: reuse the C04 text family and add layouts
+	nWcnf := 0
 	c04{}.Enumerate(tier, seed, func(fam string, cc core.Case) bool {
 		m := cc.(MaxCase)
 		if m.API || m.Chan {
@@ -287,6 +444,33 @@ func (c13) Enumerate(tier string, seed int64, yield func(string, core.Case) bool
 				return false
 			}
 		}
+		nWcnf++
+		for k, long := range longSizes {
+			if nWcnf%longEvery[k] != 0 {
+				continue
+			}
+			// the text family of C04 is canonical: a header line, then one clause per line starting with its weight
+			ls := strings.Split(strings.TrimSuffix(m.Text, "\n"), "\n")
+			var f [][]int
+			var ws []string
+			for _, l := range ls[1:] {
+				toks := strings.Fields(l)
+				ws = append(ws, toks[0])
+				var c []int
+				for _, t := range toks[1 : len(toks)-1] {
+					v, _ := strconv.Atoi(t)
+					c = append(c, v)
+				}
+				f = append(f, c)
+			}
+			if !dimacsLong(f, m.N, long, ws, ls[0], func(layout, text, fill string) bool {
+				mm := m
+				mm.Text = text
+				return yield("wcnf/long", FmtCase{Kind: "wcnf", Layout: layout, Text: text, M: &mm, N: m.N, Long: long, Fill: fill})
+			}) {
+				return false
+			}
+		}
 		return true
 	})
 }
@@ -295,9 +479,15 @@ func (c13) Exec(cc core.Case, r *core.Rec) []core.Failure {
 	c := cc.(FmtCase)
 	r.Execution()
 	var fs []core.Failure
+	shown := c.Text
+	c.Text = c.expand()
+	if c.Long > 0 {
+		shown = fmt.Sprintf("%s\n(the marker stands for %q repeated up to %d bytes)", strings.Replace(shown, longMark, "<LONG>", 1), c.Fill, c.Long)
+		r.Count("long_line_texts", 1)
+	}
 	entry := map[string]string{"cnf": "solver.ParseCNF", "cnf-explain": "explain.ParseCNF", "opb": "solver.ParseOPB", "wcnf": "maxsat.ParseWCNF"}[c.Kind]
 	add := func(kind, detail string) {
-		fs = append(fs, core.Failure{Sig: entry + "/" + kind + "/" + c.Layout, Detail: fmt.Sprintf("%s\ntext:\n%s", detail, c.Text)})
+		fs = append(fs, core.Failure{Sig: entry + "/" + kind + "/" + c.Layout, Detail: fmt.Sprintf("%s\ntext:\n%s", detail, shown)})
 	}
 	if c.Layout != "canonical" {
 		r.NonTrivial()
@@ -448,14 +638,16 @@ func (c13) Exec(cc core.Case, r *core.Rec) []core.Failure {
 			}
 		}
 	case "wcnf":
-		sub := c04{}.Exec(*c.M, r)
+		mc := *c.M
+		mc.Text = c.Text
+		sub := c04{}.Exec(mc, r)
 		for _, f := range sub {
 			f.Sig = strings.Replace(f.Sig, "ParseWCNF.Optimal", "maxsat.ParseWCNF", 1) + "/" + c.Layout
 			fs = append(fs, f)
 		}
 	}
 	if len(fs) == 0 {
-		r.Sample("text/"+c.Kind, 1, map[string]string{"layout": c.Layout, "text": c.Text})
+		r.Sample("text/"+c.Kind, 1, map[string]string{"layout": c.Layout, "text": shown})
 	}
 	return fs
 }
